@@ -99,6 +99,23 @@ func judgeCall(rr *roundRec, ph *phaseRec, c *callRec) (callJudgement, *finding)
 		return j, &finding{"harness", "panic outside the library: " + c.pi.Value + " at " + c.pi.Frame + "\n" + c.pi.Stack}
 	}
 
+	// "each one succeeds exactly when ... its own context is still live": this call was seen, after its context had ended,
+	// still blocked inside VerifySignature waiting for a download (state-based, see settle) - it does not wait on its
+	// own context. Whether it succeeds later depends only on the download.
+	if c.IgnoredCancelSeq != 0 {
+		j.verdict = "violation"
+		ends := "cancel() returned"
+		if c.ByDeadline {
+			ends = "its deadline passed and Done was closed"
+		}
+		if c.OK {
+			return j, &finding{"succeeded-after-own-context-ended", fmt.Sprintf("caller %d (cancel point %s): its context ended (%s at seq %d); at seq %d it was still blocked in %s waiting for the download, and at seq %d it returned the payload: a verification succeeds only while its own context is still live: %s",
+				c.ID, c.CancelPoint, ends, c.CancelDoneSeq, c.IgnoredCancelSeq, c.IgnoredWhere, c.RetSeq, where)}
+		}
+		return j, &finding{"cancelled-caller-keeps-waiting", fmt.Sprintf("caller %d (cancel point %s): its context ended (%s at seq %d); at seq %d it was still blocked in %s waiting for the download and returned (%q) only at seq %d, when the download had ended: the end of a caller's own context must end its verification: %s",
+			c.ID, c.CancelPoint, ends, c.CancelDoneSeq, c.IgnoredCancelSeq, c.IgnoredWhere, c.Err, c.RetSeq, where)}
+	}
+
 	if c.OK {
 		// soundness: never accept a token whose key is in no set served or cached during the call
 		if !c.PayloadOK {
@@ -253,6 +270,12 @@ func judgePhase(run *stats, rr *roundRec, pi int, ph *phaseRec) []finding {
 			continue
 		}
 		run.Eval()
+		if c.NeverReturned {
+			run.Count("verdict", "violation")
+			run.Count("own_cancellation", "ignored:never-returned")
+			add(finding{"cancelled-caller-keeps-waiting", fmt.Sprintf("caller %d, token{%s}: its context has ended (seq %d) and every gate that was going to be opened is open, yet the call is still blocked in %s inside VerifySignature (seq %d) and nothing is left that could wake it", c.ID, c.Tok, c.CancelDoneSeq, c.IgnoredWhere, c.IgnoredCancelSeq)})
+			continue
+		}
 		if strings.HasPrefix(c.Err, "harness:") {
 			run.HarnessBug(c.Err)
 			continue
@@ -273,6 +296,14 @@ func judgePhase(run *stats, rr *roundRec, pi int, ph *phaseRec) []finding {
 		if cp == "" {
 			cp = "-"
 		}
+		hp := "-"
+		if c.HoldK != nil {
+			hp = "not-reached"
+			if c.HeldAt != "" {
+				hp = c.HeldAt
+			}
+			run.Count("held_at_yield_point", hp+":"+outc)
+		}
 		taint := ""
 		if j.okAvail {
 			taint += "o"
@@ -283,7 +314,7 @@ func judgePhase(run *stats, rr *roundRec, pi int, ph *phaseRec) []finding {
 		if j.cancelledByPeer || (j.ownerCancelled && strings.Contains(c.Err, "context canceled")) {
 			taint += "c"
 		}
-		run.Distinct(strings.Join([]string{ph.Spec.Mode, shapeName(ph.C0), shapeName(ph.Spec.Shape), c.Kind, j.rC.String(), j.rS.String(), cp, role, taint, outc, fmt.Sprint(rr.Skip)}, "|"))
+		run.Distinct(strings.Join([]string{ph.Spec.Mode, shapeName(ph.C0), shapeName(ph.Spec.Shape), c.Kind, j.rC.String(), j.rS.String(), cp, role, taint, outc, fmt.Sprint(rr.Skip), hp}, "|"))
 		run.Count("verdict", j.verdict)
 		run.Count("token_kind", c.Kind+":"+outc)
 		if cp != "-" {
@@ -330,6 +361,42 @@ func judgePhase(run *stats, rr *roundRec, pi int, ph *phaseRec) []finding {
 		}
 		if c.CancelPoint == "parked-as-owner" {
 			run.Observed("cancel:owner-while-parked")
+		}
+		// the end of a parked caller's context ends its call while the download it waited for is still held
+		if (c.CancelPoint == "parked-as-owner" || c.CancelPoint == "parked-as-joiner") && !c.OK {
+			for _, d := range ds {
+				if d.StartSeq < c.CancelSeq && c.RetSeq < d.EndSeq && d.Held {
+					role := "joiner"
+					if d.Owner == c.ID {
+						role = "owner"
+						run.Observed("cancel:parked-owner-returns-while-its-download-is-still-held")
+					}
+					run.Count("own_cancellation", "honoured-while-download-held:"+role)
+					break
+				}
+			}
+		}
+		// a caller preempted inside VerifySignature while another caller's download was in flight when it went on
+		if c.HeldAt != "" {
+			for _, o := range ph.Calls {
+				if o.ID != c.ID && o.Launched && !o.NeverReturned && o.CallSeq > c.HeldSeq && o.CallSeq < c.ResumeSeq {
+					run.Observed("preempt:caller-held-inside-VerifySignature-while-another-arrives")
+					break
+				}
+			}
+			for _, d := range ds {
+				if d.Owner != c.ID && d.StartSeq < c.ResumeSeq && (d.EndSeq == 0 || d.EndSeq > c.ResumeSeq) {
+					if own[c.ID] == 0 {
+						run.Count("preempted_caller_resumed_during_foreign_download", c.HeldAt+":shared-it-or-needed-none")
+						if c.OK && j.rC != refAccept && d.OK() && c.RetSeq > d.EndSeq {
+							run.Observed("single-flight:caller-preempted-before-joining-shares-the-download-in-flight")
+						}
+					} else {
+						run.Count("preempted_caller_resumed_during_foreign_download", c.HeldAt+":started-its-own-later")
+					}
+					break
+				}
+			}
 		}
 	}
 	return out
@@ -444,7 +511,7 @@ func linearizable(rr *roundRec) (porcupine.CheckResult, int) {
 	for _, ph := range rr.Phases {
 		ops = append(ops, porcupine.Operation{ClientId: 0, Input: pcIn{Rotate: true, Shape: ph.Spec.Shape}, Output: true, Call: ph.BeginSeq, Return: ph.BeginSeq})
 		for _, c := range ph.Calls {
-			if !c.Launched || c.pi != nil {
+			if !c.Launched || c.pi != nil || c.NeverReturned {
 				continue
 			}
 			j, _ := judgeCall(rr, ph, c)
